@@ -15,6 +15,7 @@ package kgo
 //@   site call MatchString#1 assert [excludes-only-narrow-a-match] want
 //@   site call skip#0 assert [skipped-means-unwanted] !want && arg1 == topic
 //@   site call append#0 assert [kept-only-with-a-positive-verdict] want && arg0 == keep
+//@   site call append#0 assert [the-recorded-verdict-is-the-final-one] in(reSeen, topic) && reSeen[topic] == want
 //@   loop 0 invariant len(keep) <= rangeindex + 1 && sameorigin(keep, topics) && cap(keep) == cap(topics)
 //@   ensures [in-place-compaction] len(kept) <= len(topics) && sameorigin(kept, topics)
 
@@ -52,3 +53,18 @@ package kgo
 //@   prop C39
 //@   nopanic
 //@   ensures [gone] !(in(m, t) && in(m[t], p))
+//@   ensures [an-emptied-topic-is-dropped] in(m, t) ==> len(m[t]) > 0  // (an empty set would read as the whole topic: onlyt)
+
+// purgeTopics (direct and group consumers): the purged topics' assignments are purged first (assignPurgeMatching over
+// exactly these topics), then each topic is dropped from what is in use and from the regex verdicts - and, for direct
+// consumers, from the configured topics and the pinned partitions as well.
+//@ func (c *consumer) purgeTopics(topics []string)
+//@   prop C39
+//@   site call assignPartitions#0 assert [group-assignments-purged-first] arg2 == assignPurgeMatching && arg1 == purgeAssignments
+//@   site call assignPartitions#1 assert [direct-assignments-purged-first] arg2 == assignPurgeMatching && arg1 == purgeAssignments
+//@   site call delete#0 assert [group-dropped-from-in-use] arg1 == topic
+//@   site call delete#1 assert [group-verdict-forgotten] arg1 == topic
+//@   site call delete#2 assert [direct-dropped-from-in-use] arg1 == topic
+//@   site call delete#3 assert [direct-verdict-forgotten] arg1 == topic
+//@   site call delete#4 assert [direct-dropped-from-configured] arg1 == topic
+//@   site call delete#5 assert [direct-dropped-from-pinned] arg1 == topic
